@@ -21,6 +21,24 @@ fn keys() -> Vec<String> {
     .collect();
     v.push(format!("dep_{u}"));
     v.push(format!("dep_{}", Uuid::from_u128(0xD1)));
+    // long names made of multi-byte characters, shifted by 0..w-1 ASCII bytes, so that EVERY byte
+    // offset up to several hundred falls inside a character in one of them (code that cuts or
+    // indexes a name at a fixed byte position); once well-formed at the front, once not
+    for long in long_multibyte() {
+        for prefix in ["tag_", "tag_+", "annotation_", "dep_", "uda."] {
+            v.push(format!("{prefix}{long}"));
+        }
+    }
+    v
+}
+
+fn long_multibyte() -> Vec<String> {
+    let mut v = vec![];
+    for (ch, w) in [('\u{e9}', 2usize), ('\u{20ac}', 3), ('\u{1F600}', 4)] {
+        for shift in 0..w {
+            v.push(format!("{}{}", "a".repeat(shift), ch.to_string().repeat(130)));
+        }
+    }
     v
 }
 
@@ -33,6 +51,7 @@ fn values() -> Vec<String> {
     .map(|s| s.to_string())
     .collect();
     v.push("y".repeat(10_000));
+    v.extend(long_multibyte());
     v
 }
 
